@@ -197,7 +197,7 @@ CHECKS.update({
              'decidable class of trees; accessor totality (accessors_total: no modelled accessor raises on well-formed trees; get_window '
              'after the fix: commit); output_format filters total. '
              'Direct oracle: parse/split/format x random valid option sets x every accessor on every node. Open findings: '
-             '`(as)` IndexError in strip_whitespace, reindent_aligned ValueError, one option-validation escape; four fixed in /repo.',
+             'one option-validation escape (repr of a huge int); six fixed in /repo (among them the `(as)` IndexError of strip_whitespace and the ValueError of reindent_aligned on a CASE whose END was moved into a sub-group).',
         note='Partial: filters other than the modelled ones by oracle only; recursion depth is C15.',
         design='7/C07', technique='Coq proof (totality of pipeline and of generated option validation) + correspondence + oracle'),
     'C10': dict(
